@@ -149,6 +149,25 @@ func C04(r *vlib.Run) {
 			}
 		}
 	}
+	// exemplars of the known finding "wrong value kind in an included file that the run does not generate"
+	for _, ex := range [][2]string{
+		{"value/string-for-integer", `const i32 X = "twelve"`},
+		{"value/string-for-double", `const double X = "1.5"`},
+		{"value/string-for-bool", `const bool X = "yes"`},
+		{"value/integer-for-string", `const string X = 12`},
+		{"value/list-for-integer", `const i32 X = [1]`},
+		{"value/unknown-field-in-struct-literal", `const L X = {"no_such_field_zz": 1}`},
+		{"value/non-string-key-in-struct-literal", `const L X = {7: 1}`},
+	} {
+		texts := map[string]string{
+			"main.thrift": "include \"lib.thrift\"\nnamespace go nf.mainpkg\nstruct M {1: i32 a}\n",
+			"lib.thrift":  "namespace go nf.lib\nstruct L {1: i32 a}\n" + ex[1] + "\n",
+		}
+		id++
+		jobs = append(jobs, &c04Job{id: id, kind: ex[0], where: "included-file", site: "exemplar: unused include, no -r", backend: "go", recurse: false, texts: texts})
+		id++
+		jobs = append(jobs, &c04Job{id: id, kind: ex[0], where: "included-file", site: "exemplar: unused include, with -r", backend: "go", recurse: true, texts: texts})
+	}
 	// run
 	var wg sync.WaitGroup
 	ch := make(chan *c04Job)
@@ -200,6 +219,9 @@ func C04(r *vlib.Run) {
 			continue
 		}
 		switch {
+		case j.res.Exit == 0 && strings.HasPrefix(j.kind, "value/") && j.where != "main-file" && !j.recurse:
+			// the value sits in an included file for which no code is generated in this run (no -r)
+			r.Violation("C04/accepted/in-a-file-not-generated/"+j.kind, "thriftgo exits 0 on an input that breaks the rule (the value sits in an included file that this run does not generate): "+ctx, j.replay())
 		case j.res.Exit == 0:
 			r.Violation("C04/accepted/"+j.kind+"/"+j.backend, "thriftgo exits 0 on an input that breaks the rule: "+ctx, j.replay())
 		case text == "":
